@@ -1060,9 +1060,7 @@ class Instrs(CallsMixin):
             body = fr.cfg.loops[h]
             for loc, v in saved:
                 st.store(loc, v)
-            for (txt, l, v) in stable:
-                st.store(l, v)
-                self.cx.assumed_used.add('frame-stable over opaque calls (assumed): ' + txt)
+            self.restore_stable(st, stable)
             self.cx.notes.append('loop at block %d of %s havocs the whole heap (opaque call or unresolved store inside)' % (h, fr.fnkey))
         elif w:
             prefixes = dict(w)
